@@ -8,7 +8,16 @@ from common import bits, unbits, fb, close, canon_hash
 ID = "C14"
 SECTIONS = ["ops"]          # derived values are propagated through the generated operator tables
 LEAN_MODULES = ["QExPy.Props.C14"]
-THEOREMS = []
+THEOREMS = ["QExPy.C14_derived_nonneg",
+            "QExPy.C14_inv_step",
+            "QExPy.C14_inv_run",
+            "QExPy.C14_inv_all",
+            "QExPy.C14_reject_unchanged",
+            "QExPy.C14_negative_rejected",
+            "QExPy.C14_negative_array_rejected",
+            "QExPy.C14_nonneg_accepted",
+            "QExPy.C14_rel",
+            "QExPy.C14_statistics_nonneg"]
 RULE = ("seeded histories (3-14 requests) over a heap of quantities: Measurement(v[, e]), "
         "Measurement([..][, e | [e..]]), MeasurementArray(error= | relative_error=, number or list), "
         "XYDataSet(xerr=, yerr=), re-wrapping existing arrays with new uncertainties "
